@@ -1092,8 +1092,11 @@ def parse_tree_to_objgraph(
                 # remove all processed models from (global) repo (if present)
                 # (remove all of them, not only the model with errors,
                 # since, models with errors may be included in other models)
-                _abort_model_construction(parsers)
+                # (first: giving up the construction drops the attributes
+                # collected for user class objects, among them the
+                # repository and the meta-model of a user class model)
                 remove_models_from_repositories(models, models)
+                _abort_model_construction(parsers)
                 raise
 
         if metamodel.textx_tools_support and type(model) not in PRIMITIVE_PYTHON_TYPES:
@@ -1211,10 +1214,12 @@ def _remove_all_affected_models_in_construction(model):
     models_to_be_removed = list(
         filter(lambda x: hasattr(x, "_tx_reference_resolver"), all_affected_models)
     )
-    _abort_model_construction(
-        [m._tx_parser for m in models_to_be_removed if hasattr(m, "_tx_parser")]
-    )
+    parsers = [m._tx_parser for m in models_to_be_removed if hasattr(m, "_tx_parser")]
+    # (first: giving up the construction drops the attributes collected for
+    # user class objects, among them the repository and the meta-model of a
+    # user class model)
     remove_models_from_repositories(all_affected_models, models_to_be_removed)
+    _abort_model_construction(parsers)
 
 
 class ReferenceResolver:
